@@ -464,6 +464,14 @@ func (e *SpecEnv) quant(n *SQuant) Val {
 	} else {
 		body = Implies(And(guards...), body)
 	}
+	var bound []string
+	for _, b := range binders {
+		f := strings.Fields(strings.TrimPrefix(b, "("))
+		bound = append(bound, f[0])
+	}
+	if pats := c.choosePatterns(body.S, bound); pats != "" {
+		return Scalar{Term{fmt.Sprintf("(%s (%s) (! %s %s))", q, strings.Join(binders, " "), body.S, pats), SBool}, tBool}
+	}
 	return Scalar{Term{fmt.Sprintf("(%s (%s) %s)", q, strings.Join(binders, " "), body.S), SBool}, tBool}
 }
 
@@ -995,8 +1003,9 @@ func (e *SpecEnv) applySMTFunc(sf *SpecFunc, avs []Val) Val {
 			// uninterpreted: declare with parameter sorts
 			var sorts []string
 			for _, p := range params {
-				f := strings.SplitN(strings.Trim(p, "()"), " ", 2)
-				sorts = append(sorts, f[1])
+				// p is "(name sort)": drop the outer parentheses and the name
+				inner := p[1 : len(p)-1]
+				sorts = append(sorts, strings.TrimSpace(inner[strings.IndexByte(inner, ' ')+1:]))
 			}
 			c.raw(fmt.Sprintf("(declare-fun %s (%s) %s)", fname, strings.Join(sorts, " "), rs))
 		} else {
